@@ -88,7 +88,7 @@ def warm():
 
         rng = random.Random(31 + i)
         plan = generate(rng, "quick")
-        while plan["kind"] != kind:
+        while plan["kind"] != kind or (kind == "upgrade" and (plan["src"] == "knit") != (src == "knit")):
             plan = generate(rng, "quick")
         if kind == "upgrade":
             plan["src"], plan["tgt"] = src, tgt
@@ -159,7 +159,7 @@ def generate(rng, tier):
     kind = "upgrade" if rng.random() < 0.6 else "reconfigure"
     n = rng.choice([1, 2, 3, 4, 6]) if tier != "thorough" else rng.choice([2, 4, 6, 9])
     if kind == "upgrade":
-        src = rng.choice([f for f in ALL_SRC if targets_for(f)])
+        src = rng.choice([f for f in ALL_SRC if targets_for(f)] + ["knit"])  # format-3 trees twice as often
         tgt = rng.choice(targets_for(src))
     else:
         src = rng.choice(["2a", "2a", "pack-0.92", "1.14-rich-root"])
@@ -167,14 +167,22 @@ def generate(rng, tier):
     opts = {"odd_names": rng.random() < 0.2, "big": False, "props": rng.random() < 0.3}
     if src == "knit":
         opts["retype"] = False
-    mh, specs = histsim.gen_history(rng, n, opts)
+    # an unmerged line leaves revisions that only the repository holds (dead head); one of them
+    # may be tagged or be a pending merge of the working tree
+    mh, specs = histsim.gen_history(rng, n, opts, dead_head=n >= 2 and rng.random() < 0.8)
     tip = f"m-{n}"
     anc = sorted(mh.ancestry(tip))
-    tags = {name: rng.choice(anc) for name in rng.sample(TAGS, rng.choice([0, 1, 2, 3]))}
+    outside = sorted(set(mh.revs) - set(anc))
+    tags = {name: rng.choice(anc + outside + outside) for name in rng.sample(TAGS, rng.choice([0, 1, 2, 3]))}
     pending = gen_pending(rng, mh.tree(tip)) if rng.random() < 0.75 else []
-    plan = {"kind": kind, "specs": specs, "tip": tip, "tags": tags, "pending": pending, "src": src, "tgt": tgt, "faults": []}
+    heads = histsim.heads_outside(mh, tip)
+    pending_merge = rng.choice(heads) if heads and rng.random() < 0.6 else None
+    plan = {"kind": kind, "specs": specs, "tip": tip, "tags": tags, "pending": pending, "pending_merge": pending_merge, "src": src, "tgt": tgt, "faults": []}
     if kind == "upgrade":
-        if rng.random() < 0.5:
+        if src == "knit":
+            # format-3 working tree: enumerate fault points over the conversion
+            plan["enum"] = rng.randrange(1, 1 << 30)
+        elif rng.random() < 0.5:
             plan["faults"] = [{"kind": "err_before", "at": rng.choice([1, 2, 3, 5, 8, 12, 18, 25, 35, 50, 70, 100, 140]), "count": "mut", "err": rng.choice(["transport", "permission", "enospc"])}]
     else:
         plan["chain"] = [rng.choice(TRANSITIONS) for _ in range(rng.choice([1, 2, 3, 4]))]
@@ -228,6 +236,12 @@ def location_state(path, strict):
                 t.append(StrictTestament3.from_revision(repo, rid).as_short_text().decode("utf-8", "replace"))
             tests[rid.decode()] = t
         st["testaments"] = tests
+        # everything the location's repository holds (dead heads, tagged side revisions,
+        # pending merges included)
+        held = {}
+        for rid in sorted(repo.all_revision_ids()):
+            held[rid.decode()] = tests.get(rid.decode(), [None])[0] or Testament.from_revision(repo, rid).as_short_text().decode("utf-8", "replace")
+        st["repo"] = held
     try:
         wt = WorkingTree.open(path)
     except (errors.NoWorkingTree, errors.NotBranchError):
@@ -240,11 +254,17 @@ def location_state(path, strict):
     return st
 
 
-def diff_state(a, b, ignore=()):
+def diff_state(a, b, ignore=(), ignore_revs=()):
     """Keys in which two location states differ (+ short detail)."""
     out = []
     for k in sorted(set(a) | set(b)):
         if k in ignore:
+            continue
+        if k == "repo":
+            # revisions may be added (a shared repository holds more), never lost or changed
+            lost = [r for r in sorted(a.get(k) or {}) if (b.get(k) or {}).get(r) != a[k][r] and r not in ignore_revs]
+            if lost:
+                out.append(f"repo: revisions {lost[:6]} are no longer available (or differ) in the location's repository")
             continue
         if a.get(k) != b.get(k):
             va, vb = a.get(k), b.get(k)
@@ -279,6 +299,9 @@ def build_location(path, plan, mh, shared_parent=False):
             b.tags.set_tag(name, rid.encode())
     if plan["pending"]:
         bld.apply(plan["pending"])
+    if plan.get("pending_merge"):
+        with bld.tree.lock_write():
+            bld.tree.set_parent_ids([plan["tip"].encode(), plan["pending_merge"].encode()])
     return bld
 
 
@@ -305,109 +328,275 @@ def execute(sim, plan):
 # -- upgrade ---------------------------------------------------------------------------
 
 
-def _upgrade(sim, plan, mh):
+_seam_cls = []
+
+
+def seam_local_transport(url):
+    """Format-3 working trees insist on `isinstance(transport, LocalTransport)`, so a decorator
+    (sim+file://) makes the converter skip the tree silently.  For those locations the seam is
+    a SUBCLASS of the local transport: every mutating call of it (and of its clones) goes
+    through Sim.before_op/after_op exactly as in simkit.transport.SimTransport."""
+    if not _seam_cls:
+        from dromedary.local import LocalTransport
+        from simkit.sim import cur_sim
+
+        class SeamLocalTransport(LocalTransport):
+            def clone(self, offset=None):
+                return SeamLocalTransport(self.abspath(offset) if offset else self.base)
+
+            def _do(self, op, relpath, fn, extra=""):
+                p_ = self.local_abspath(relpath)
+                sim = cur_sim()
+                sim.before_op(op, p_, True, extra)
+                try:
+                    r = fn()
+                except BaseException:
+                    if sim.current().pending_crash_after:
+                        sim.after_op(op, p_)
+                    raise
+                sim.after_op(op, p_)
+                return r
+
+            def put_bytes(self, relpath, raw_bytes, mode=None):
+                return self._do("put", relpath, lambda: LocalTransport.put_bytes(self, relpath, raw_bytes, mode))
+
+            def put_file(self, relpath, f, mode=None):
+                data = f.read()
+                return self._do("put", relpath, lambda: LocalTransport.put_bytes(self, relpath, data, mode))
+
+            def put_bytes_non_atomic(self, relpath, raw_bytes, mode=None, create_parent_dir=False, dir_mode=None):
+                return self._do("put_na", relpath, lambda: LocalTransport.put_bytes_non_atomic(self, relpath, raw_bytes, mode=mode, create_parent_dir=create_parent_dir, dir_mode=dir_mode))
+
+            def put_file_non_atomic(self, relpath, f, mode=None, create_parent_dir=False, dir_mode=None):
+                return self.put_bytes_non_atomic(relpath, f.read(), mode, create_parent_dir, dir_mode)
+
+            def append_bytes(self, relpath, data, mode=None):
+                return self._do("append", relpath, lambda: LocalTransport.append_bytes(self, relpath, data, mode))
+
+            def append_file(self, relpath, f, mode=None):
+                return self.append_bytes(relpath, f.read(), mode)
+
+            def mkdir(self, relpath, mode=None):
+                return self._do("mkdir", relpath, lambda: LocalTransport.mkdir(self, relpath, mode))
+
+            def rename(self, rel_from, rel_to):
+                return self._do("rename", rel_from, lambda: LocalTransport.rename(self, rel_from, rel_to), extra=rel_to)
+
+            def move(self, rel_from, rel_to):
+                return self._do("move", rel_from, lambda: LocalTransport.move(self, rel_from, rel_to), extra=rel_to)
+
+            def delete(self, relpath):
+                return self._do("delete", relpath, lambda: LocalTransport.delete(self, relpath))
+
+            def rmdir(self, relpath):
+                return self._do("rmdir", relpath, lambda: LocalTransport.rmdir(self, relpath))
+
+            def copy(self, rel_from, rel_to):
+                return self._do("copy", rel_from, lambda: LocalTransport.copy(self, rel_from, rel_to), extra=rel_to)
+
+        _seam_cls.append(SeamLocalTransport)
+    return _seam_cls[0](url)
+
+
+def _run_upgrade(path, fmt, local_seam):
+    """The upgrade driver: breezy.upgrade.upgrade(url), or - for format-3 trees - the same
+    smart_upgrade on a control directory opened over the subclass seam."""
     from breezy import controldir
-    from breezy.upgrade import upgrade
+    from breezy.upgrade import smart_upgrade, upgrade
+
+    if not local_seam:
+        return upgrade("sim+file://" + path, format=fmt)
+    t = seam_local_transport("file://" + path + "/")
+    cd = controldir.ControlDir.open_unsupported(t.base, possible_transports=[t]) if False else controldir.ControlDir.open_from_transport(t)
+    return smart_upgrade([cd], fmt)[2]
+
+
+def _break_locks(path):
+    from breezy.workingtree import WorkingTree
+
+    for opener in (storesim.open_branch, storesim.open_repo, WorkingTree.open):
+        try:
+            opener(path).break_lock()
+        except Exception:  # noqa: BLE001
+            pass
+
+
+def _attempt(sim, plan, mh, path, before, faults, strict, tree_phase, label):
+    """One upgrade of the location at `path` with `faults` armed; judges the outcome.
+    tree_phase: the fault sits in the working-tree conversion, every intermediate state of
+    which is a readable tree: the location must then be intact IN PLACE and a retry must work
+    (no recourse to backup.bzr)."""
+    from breezy import controldir
 
     src, tgt = plan["src"], plan["tgt"]
-    strict = is_rich(src) == is_rich(tgt)
-    path = histsim.scratch("loc")
-    build_location(path, plan, mh)
-    before = location_state(path, strict)
+    local_seam = src == "knit"
+    upgrade = lambda _url, format=None: _run_upgrade(path, format, local_seam)  # noqa: E731
     url = "sim+file://" + path
     fmt = controldir.format_registry.make_controldir(tgt)
     sig = [f"{src}->{tgt}"]
-    sim.fault_filter = lambda a, op, p, mutating: "/loc/" in p
-    sim.arm(plan.get("faults", []))
+    name = os.path.basename(path)
+    sim.fault_filter = lambda a, op, p, mutating: f"/{name}/" in p
+    n0 = sum(sim.faults_fired.values())
+    sim.arm(faults)
     err = None
+    crashed = False
     try:
         excs = upgrade(url, format=fmt)
         if excs:
             err = excs[0]
     except SimCrash:
-        raise
+        crashed = True
     except Exception as e:  # noqa: BLE001
         err = e
-    fired = sum(sim.faults_fired.values())
+    fired = sum(sim.faults_fired.values()) - n0
     sim.disarm()
-    sim.notes["evaluations"] = 1
+    if crashed:
+        sim.restart_main()
+    sim.notes["evaluations"] = sim.notes.get("evaluations", 0) + 1
     if err is not None and not fired:
         import traceback
 
         sim.fail("upgrade_fails", ["upgrade_fails"] + sig + [norm_exc(err)], f"upgrade {src} -> {tgt} failed without any fault: {type(err).__name__}: {err}\n{''.join(traceback.format_exception(err))[-1500:]}")
-    if err is None:
+    if err is None and not crashed:
         after = _state_or_fail(sim, path, strict, ["unreadable_after_upgrade"] + sig, "after the upgrade")
         d = diff_state(before, after)
         if d:
-            sim.fail("not_preserved", ["not_preserved"] + sig + [keys_of(d)], f"upgrade {src} -> {tgt} (pending {plan['pending']}, tags {plan['tags']}) changed: {d}")
+            sim.fail("not_preserved", ["not_preserved"] + sig + [keys_of(d)], f"upgrade {src} -> {tgt} (pending {plan['pending']}, pending merge {plan.get('pending_merge')}, tags {plan['tags']}) changed: {d}")
         _check_format(sim, path, tgt, sig)
         sim.probe("upgrade_ok")
         if fired:
             sim.probe("fault_absorbed")
-        sim.nontrivial = len(mh.revs) >= 2 and bool(plan["pending"])
-        sim.event("upgrade", src, tgt, "ok")
-        sim.state_seen((src, tgt, bool(plan["pending"]), bool(plan["tags"]), "ok"))
-        return
-    # the conversion failed under the injected error
+        sim.event("upgrade", label, src, tgt, "ok")
+        return "ok"
+    # the conversion failed under the injected fault
     sim.probe("upgrade_interrupted")
-    sim.nontrivial = True
-    sim.event("upgrade", src, tgt, "interrupted", type(err).__name__)
-    for opener in ("branch", "repo"):
-        try:
-            (storesim.open_branch if opener == "branch" else storesim.open_repo)(path).break_lock()
-        except Exception:  # noqa: BLE001
-            pass
+    sim.event("upgrade", label, src, tgt, "interrupted", "crash" if crashed else type(err).__name__)
+    _break_locks(path)
     how = None
+    problem = None
     try:
         now = location_state(path, strict)
-        if not diff_state(before, now):
+        d = diff_state(before, now)
+        if not d:
             how = "intact"
+        else:
+            problem = "state differs: " + "; ".join(d)[:600]
     except Exception as e:  # noqa: BLE001
+        problem = f"unreadable: {type(e).__name__}: {e}"
         sim.event("after-failure", "unreadable", type(e).__name__)
-    if how is None or True:
-        # a retry must either complete or leave things recoverable
-        retry_err = None
+    what = f"upgrade {src}->{tgt} interrupted at {label} ({'crash' if crashed else type(err).__name__ + ': ' + str(err)[:200]})"
+    if tree_phase and how is None:
+        sim.fail("tree_conversion_not_atomic", ["tree_conversion_not_atomic"] + sig + ["after-failure"], f"{what}: the fault hit the working-tree conversion, after which the location must still be a readable tree with basis, pending merges and changes intact, but: {problem}")
+    # a retry must either complete or leave things recoverable
+    retry_err = None
+    try:
+        excs = upgrade(url, format=fmt)
+        if excs:
+            retry_err = excs[0]
+    except Exception as e:  # noqa: BLE001
+        retry_err = e
+    sim.notes["evaluations"] += 1
+    if retry_err is None or type(retry_err).__name__ == "UpToDateFormat":
         try:
-            excs = upgrade(url, format=fmt)
-            if excs:
-                retry_err = excs[0]
+            now = location_state(path, strict)
+            d = diff_state(before, now)
         except Exception as e:  # noqa: BLE001
-            retry_err = e
-        sim.notes["evaluations"] += 1
-        if retry_err is None or type(retry_err).__name__ == "UpToDateFormat":
+            d = [f"unreadable: {type(e).__name__}: {e}"]
+        if not d:
+            how = (how + "+" if how else "") + "retry"
+            sim.probe("retry_completes")
+            retry_err = None
+        else:
+            sim.event("retry", "state-differs", keys_of(d))
+            retry_err = RuntimeError("state differs after retry: " + "; ".join(d)[:600])
+    if retry_err is not None and tree_phase:
+        sim.fail("tree_conversion_not_atomic", ["tree_conversion_not_atomic"] + sig + ["retry"], f"{what}: the location was intact, but the retried upgrade does not complete: {type(retry_err).__name__}: {str(retry_err)[:600]}")
+    if retry_err is not None and how is None:
+        sim.event("retry", "failed", type(retry_err).__name__)
+        # documented recovery: put the backup back (the first one holds the original)
+        backups = sorted((n for n in os.listdir(path) if n.startswith("backup.bzr")), key=lambda n_: int(re.sub(r"\D", "", n_) or 0))
+        if backups:
+            shutil.rmtree(os.path.join(path, ".bzr"), ignore_errors=True)
+            os.rename(os.path.join(path, backups[0]), os.path.join(path, ".bzr"))
             try:
                 now = location_state(path, strict)
                 d = diff_state(before, now)
             except Exception as e:  # noqa: BLE001
                 d = [f"unreadable: {type(e).__name__}: {e}"]
             if not d:
-                how = (how + "+" if how else "") + "retry"
-                sim.probe("retry_completes")
+                how = "backup"
+                sim.probe("recovered_from_backup")
             else:
-                sim.event("retry", "state-differs", keys_of(d))
-                retry_err = retry_err or RuntimeError("state differs after retry: " + "; ".join(d)[:600])
-        if retry_err is not None and how is None:
-            sim.event("retry", "failed", type(retry_err).__name__)
-            # documented recovery: put the newest backup back
-            backups = sorted((n for n in os.listdir(path) if n.startswith("backup.bzr")), key=lambda n_: int(re.sub(r"\D", "", n_) or 0))
-            if backups:
-                shutil.rmtree(os.path.join(path, ".bzr"), ignore_errors=True)
-                # the first backup holds the original
-                os.rename(os.path.join(path, backups[0]), os.path.join(path, ".bzr"))
-                try:
-                    now = location_state(path, strict)
-                    d = diff_state(before, now)
-                except Exception as e:  # noqa: BLE001
-                    d = [f"unreadable: {type(e).__name__}: {e}"]
-                if not d:
-                    how = "backup"
-                    sim.probe("recovered_from_backup")
-                else:
-                    sim.fail("unrecoverable", ["unrecoverable"] + sig + ["backup-differs"], f"upgrade {src}->{tgt} failed at store op {plan['faults']} ({type(err).__name__}: {err}); retry failed ({type(retry_err).__name__}: {retry_err}); restoring {backups[0]} gives a different state: {d}")
-            else:
-                sim.fail("unrecoverable", ["unrecoverable"] + sig + ["no-backup"], f"upgrade {src}->{tgt} failed at store op {plan['faults']} ({type(err).__name__}: {err}); the location is neither intact nor does a retry complete ({type(retry_err).__name__}: {str(retry_err)[:500]}) and there is no backup.bzr")
-    sim.event("recovery", how)
-    sim.state_seen((src, tgt, bool(plan["pending"]), "interrupted", how))
+                sim.fail("unrecoverable", ["unrecoverable"] + sig + ["backup-differs"], f"{what}; retry failed ({type(retry_err).__name__}: {retry_err}); restoring {backups[0]} gives a different state: {d}")
+        else:
+            sim.fail("unrecoverable", ["unrecoverable"] + sig + ["no-backup"], f"{what}; the location is neither intact nor does a retry complete ({type(retry_err).__name__}: {str(retry_err)[:500]}) and there is no backup.bzr")
+    sim.event("recovery", label, how)
+    return how
+
+
+def _upgrade(sim, plan, mh):
+    src, tgt = plan["src"], plan["tgt"]
+    strict = is_rich(src) == is_rich(tgt)
+    path = histsim.scratch("loc")
+    build_location(path, plan, mh)
+    before = location_state(path, strict)
+    sim.nontrivial = len(mh.revs) >= 2 and bool(plan["pending"])
+    if not plan.get("enum"):
+        how = _attempt(sim, plan, mh, path, before, plan.get("faults", []), strict, False, "single")
+        sim.nontrivial = sim.nontrivial or how != "ok"
+        sim.state_seen((src, tgt, bool(plan["pending"]), bool(plan["tags"]), how))
+        return
+    # enumeration over the store operations of the conversion (format-3 working trees): a
+    # fault-free pass on a copy lists the mutating operations, then one copy per fault point
+    ops = []
+
+    def mon(s, actor, phase, op, p, extra):
+        if phase == "before" and "/dry/" in p and op not in ("get", "has", "stat", "list_dir", "readv", "iter_files_recursive", "stream_close", "readlink"):
+            ops.append((op, p.split("/dry/", 1)[1]))
+
+    dry = histsim.scratch("dry")
+    shutil.copytree(path, dry, symlinks=True)
+    sim.monitors.append(mon)
+    _attempt(sim, plan, mh, dry, before, [], strict, False, "dry")
+    sim.monitors.remove(mon)
+    shutil.rmtree(dry)
+    tree_ops = [k for k, (op, p) in enumerate(ops, 1) if p.startswith(".bzr/checkout/")]
+    marker_ops = [k for k in tree_ops if ops[k - 1][1].endswith("/format")]
+    sim.event("dry", len(ops), len(tree_ops), [ops[k - 1] for k in marker_ops])
+    points = []
+    for k in range(1, len(ops) + 1):
+        for variant in ("err_before", "crash-dropped", "crash-applied"):
+            points.append((k, variant))
+    if getattr(sim, "tier", "quick") != "thorough":
+        rng = sim.rng("points:%d" % plan["enum"])
+        must = [(k, v) for k, v in points if k in marker_ops]
+        rest_tree = [(k, v) for k, v in points if k in tree_ops and k not in marker_ops]
+        rest = [(k, v) for k, v in points if k not in tree_ops]
+        rng.shuffle(rest_tree)
+        rng.shuffle(rest)
+        points = sorted(must + rest_tree[:5] + rest[:3])
+    if plan.get("only"):
+        points = [tuple(x) for x in plan["only"]]
+    outcomes = []
+    for j, (k, variant) in enumerate(points):
+        if variant == "err_before":
+            f = {"kind": "err_before", "at": k, "count": "mut", "err": "enospc" if k % 2 else "transport"}
+        else:
+            f = {"kind": "crash", "at": k, "count": "mut", "applied": variant == "crash-applied"}
+        cp = histsim.scratch(f"p{j}")
+        shutil.copytree(path, cp, symlinks=True)
+        in_tree = k in tree_ops
+        try:
+            how = _attempt(sim, plan, mh, cp, before, [f], strict, in_tree, f"k{k}:{variant}:{ops[k - 1][0]}:{ops[k - 1][1] if in_tree else storesim.path_class(ops[k - 1][1])}")
+        except Violation:
+            plan["only"] = [[k, variant]]
+            raise
+        outcomes.append(how)
+        shutil.rmtree(cp, ignore_errors=True)
+        if in_tree:
+            sim.probe("fault_in_tree_conversion")
+    sim.nontrivial = True
+    sim.state_seen((src, tgt, bool(plan["pending"]), bool(plan.get("pending_merge")), tuple(sorted(set(map(str, outcomes))))))
 
 
 def _state_or_fail(sim, path, strict, sig, what):
@@ -427,6 +616,12 @@ def _check_format(sim, path, tgt, sig):
     got = cd.open_repository()._format
     if type(got) is not type(want.repository_format):
         sim.fail("format", ["format"] + sig, f"after upgrade to {tgt} the repository format is {got}, expected {want.repository_format}")
+    try:
+        wt = cd.open_workingtree(recommend_upgrade=False)
+    except Exception:  # noqa: BLE001
+        wt = None
+    if wt is not None and type(wt._format) is not type(want.workingtree_format):
+        sim.fail("format", ["format", "tree"] + sig, f"after upgrade to {tgt} the working tree format is {wt._format}, expected {want.workingtree_format}")
 
 
 # -- reconfigure -----------------------------------------------------------------------
@@ -468,7 +663,7 @@ def _reconfigure(sim, plan, mh):
                 rc = reconfigure.Reconfigure.to_tree(cdir)
             elif tr == "to_branch":
                 rc = reconfigure.Reconfigure.to_branch(cdir)
-                force = not plan["pending"]
+                force = not plan["pending"] and not plan.get("pending_merge")
             elif tr == "to_checkout":
                 rc = reconfigure.Reconfigure.to_checkout(cdir, "sim+file://" + trunk)
             elif tr == "to_lightweight_checkout":
@@ -502,16 +697,42 @@ def _reconfigure(sim, plan, mh):
             ignore = {"tree", "changes", "parents"}
         if before["tree"] is None and after["tree"] is not None and outcome == "applied":
             ignore = {"tree", "changes", "parents"}
-        d = diff_state(before, after, ignore)
+        # revisions the location refers to (history, tags, pending merges) must stay available in
+        # its repository; unreferenced ones (dead heads) too whenever the old repository is gone
+        referenced = set(mh.ancestry(before["tip"]))
+        # (tags may legitimately name revisions a repository does not hold - e.g. after `branch` -
+        # so tagged side revisions count only when the old repository is destroyed)
+        if after["tree"] is not None or "parents" not in ignore:
+            for p_ in before.get("parents") or []:
+                referenced |= mh.ancestry(p_)
+        old_repo_gone = outcome == "applied" and tr in ("to_lightweight_checkout", "to_use_shared")
+        ignore_revs = () if old_repo_gone else [r for r in before["repo"] if r not in referenced]
+        d = diff_state(before, after, ignore, ignore_revs)
         if d:
-            sim.fail("not_preserved", ["not_preserved", tr, outcome.split(":")[0], keys_of(d)], f"{tr} ({outcome}; chain {layout}; pending {plan['pending']}; tags {plan['tags']}) changed: {d}")
+            sim.fail("not_preserved", ["not_preserved", tr, outcome.split(":")[0], keys_of(d)], f"{tr} ({outcome}; chain {layout}; pending {plan['pending']}; pending merge {plan.get('pending_merge')}; tags {plan['tags']}) changed: {d}")
         if after["tree"] is not None and before["tree"] is None:
             # a freshly created tree must be a clean checkout of the tip
             if after.get("changes"):
                 sim.fail("new_tree_dirty", ["new_tree_dirty", tr], f"{tr} created a tree that has changes {after['changes'][:3]}")
         before = after
-    sim.nontrivial = applied > 0 and len(mh.revs) >= 2 and bool(plan["pending"])
-    sim.state_seen((src, tuple(layout), bool(plan["pending"])))
+    # a pending merge that survived must still be committable, without ghosts
+    if before["tree"] is not None and len(before.get("parents") or []) > 1:
+        from breezy.workingtree import WorkingTree
+
+        wt = WorkingTree.open(path)
+        try:
+            new_rev = wt.commit(message="merge", rev_id=b"final-merge", timestamp=1_600_000_000, timezone=0, committer=histsim.COMMITTERS[0])
+        except Exception as e:  # noqa: BLE001
+            sim.fail("pending_merge_uncommittable", ["pending_merge_uncommittable", layout[-1].split(":")[0] if layout else "-", norm_exc(e)], f"after chain {layout} the pending merge {before['parents']} cannot be committed: {type(e).__name__}: {e}")
+        repo = WorkingTree.open(path).branch.repository
+        with repo.lock_read():
+            rev = repo.get_revision(new_rev)
+            ghosts = [p_.decode() for p_ in rev.parent_ids if not repo.has_revision(p_)]
+        if ghosts or [p_.decode() for p_ in rev.parent_ids] != before["parents"]:
+            sim.fail("pending_merge_ghost", ["pending_merge_ghost", "+".join(t.split(":")[0] for t in layout if t.endswith("applied"))[:60]], f"after chain {layout} committing the pending merge recorded parents {rev.parent_ids} of which {ghosts} are not in the repository (pending parents were {before['parents']})")
+        sim.probe("pending_merge_committed")
+    sim.nontrivial = applied > 0 and len(mh.revs) >= 2 and bool(plan["pending"] or plan.get("pending_merge"))
+    sim.state_seen((src, tuple(layout), bool(plan["pending"]), bool(plan.get("pending_merge"))))
 
 
 def shrink_candidates(plan):
